@@ -41,6 +41,14 @@ def v6_text(rng, v, spelling=None):
     """Return (text, spelling).  All spellings are accepted by ipaddress.IPv6Address."""
     sp = spelling or rng.choice(["canon", "canon", "full", "upper", "mixed", "altzip", "nozip", "padded"])
     a = ipaddress.IPv6Address(v)
+    if sp == "edge1":
+        # "::" standing for exactly ONE zero group at the end or at the start (1:2:3:4:5:6:7::  /  ::2:3:4:5:6:7:8)
+        g = v6_groups(v)
+        if g[7] == 0 and all(x for x in g[:7]):
+            return ":".join("%x" % x for x in g[:7]) + "::", sp
+        if g[0] == 0 and all(x for x in g[1:]):
+            return "::" + ":".join("%x" % x for x in g[1:]), sp
+        sp = "canon"
     if sp == "pad2":
         # eight groups of exactly two hex digits (only for values whose groups are all below 0x100); reads like an EUI-64
         if all(g < 0x100 for g in v6_groups(v)):
